@@ -26,6 +26,12 @@ func scaleNames(n int) string {
 	for i := 0; i < n; i++ {
 		fmt.Fprintf(&b, "%s v%d = %d;\n", bn.KwVar, i, i)
 	}
+	// assignments to the earliest and the latest names once the scope is full, directly, from a nested block,
+	// from a function called later and through a closure; every one must be seen by the next read
+	fmt.Fprintf(&b, "v0 = \"first\";\nv1 = v1 + 1000;\nv%d = \"last\";\n{ v2 = \"from-block\"; { v3 = v3 + 3000; } }\n", n-1)
+	fmt.Fprintf(&b, "%s setv() { v4 = \"from-function\"; v%d = \"from-function\"; }\nsetv();\n%s mkset() { %s s(x) { v5 = x; } %s s; }\nmkset()(\"from-closure\");\n", bn.KwFun, n-2, bn.KwFun, bn.KwFun, bn.KwReturn)
+	fmt.Fprintf(&b, "%s [v0, v1, v2, v3, v4, v5, v%d, v%d];\n", bn.KwPrint, n-2, n-1)
+	fmt.Fprintf(&b, "v%d = 0; v%d = %d; v0 = 0;\n", n-1, n-2, n-2)
 	fmt.Fprintf(&b, "v%d = v0 + v%d + v%d;\n%s v%d;\n%s v%d;\n%s v0;\n{ %s v%d = \"inner\"; %s v%d; }\n%s v%d;\n", n/2, n-1, n/3, bn.KwPrint, n/2, bn.KwPrint, n-1, bn.KwPrint, bn.KwVar, n-1, bn.KwPrint, n-1, bn.KwPrint, n-1)
 	return b.String()
 }
@@ -85,4 +91,26 @@ func (c *Ctx) scaleSizes(quick, thorough []int) []int {
 		return append(append([]int{}, quick...), thorough...)
 	}
 	return quick
+}
+
+// scaleRecursion: user-function calls nested n deep — for the first time in the process, then again, in
+// three shapes (value returned through every level, closure counter, mutual recursion).
+func scaleRecursion(n int) string {
+	P := bn.KwPrint
+	var b strings.Builder
+	fmt.Fprintf(&b, "%s down(k) { %s (k == 0) { %s \"bottom\"; } %s down(k - 1); }\n", bn.KwFun, bn.KwIf, bn.KwReturn, bn.KwReturn)
+	fmt.Fprintf(&b, "%s sum(k) { %s (k == 0) { %s 0; } %s k + sum(k - 1); }\n", bn.KwFun, bn.KwIf, bn.KwReturn, bn.KwReturn)
+	fmt.Fprintf(&b, "%s calls = 0;\n%s counted(k) { calls = calls + 1; %s (k > 0) { %s counted(k - 1); } %s calls; }\n", bn.KwVar, bn.KwFun, bn.KwIf, bn.KwReturn, bn.KwReturn)
+	fmt.Fprintf(&b, "%s ev(k) { %s (k == 0) %s %s; %s od(k - 1); }\n%s od(k) { %s (k == 0) %s %s; %s ev(k - 1); }\n", bn.KwFun, bn.KwIf, bn.KwReturn, bn.KwTrue, bn.KwReturn, bn.KwFun, bn.KwIf, bn.KwReturn, bn.KwFalse, bn.KwReturn)
+	fmt.Fprintf(&b, "%s down(%d);\n%s down(%d);\n%s sum(%d);\n%s counted(%d);\n%s counted(%d);\n%s ev(%d);\n%s down(%d);\n", P, n, P, n, P, n, P, n, P, n, P, n, P, n+n/2)
+	return b.String()
+}
+
+// scaleContinue: a যতক্ষণ / ফর loop that runs n passes, nearly all of them cut short by চালিয়ে_যাও.
+func scaleContinue(n int) string {
+	P := bn.KwPrint
+	var b strings.Builder
+	fmt.Fprintf(&b, "%s i = 0;\n%s kept = 0;\n%s (i < %d) {\n  i = i + 1;\n  %s (i %% %d != 0) { %s; }\n  kept = kept + 1;\n  %s i;\n}\n%s kept;\n", bn.KwVar, bn.KwVar, bn.KwWhile, n, bn.KwIf, n/3+1, bn.KwContinue, P, P)
+	fmt.Fprintf(&b, "kept = 0;\n%s (%s j = 0; j < %d; j = j + 1) {\n  %s (j %% %d != 0) %s;\n  kept = kept + 1;\n}\n%s kept;\n%s \"done\";\n", bn.KwFor, bn.KwVar, n, bn.KwIf, n/3+1, bn.KwContinue, P, P)
+	return b.String()
 }
